@@ -141,7 +141,9 @@ def check(tier: str, seed: int) -> int:
                 items = pre["body"]["items"] if op["s"]["kind"] == "doc" else \
                     (pre["layers"][-1] if pre["layers"] else []) if op["s"]["kind"] == "scope" else \
                     next((x["val"].get("items", []) for x in pre["body"]["items"] if x["k"] == "b" and x["ap"] == [op["s"]["via"]]), [])
-                kc = "family" if any(x["k"] == "b" and len(x["ap"]) > 1 and x["ap"][0] == op["k"] for x in items) else \
+                kc = "mixed_root" if (any(x["k"] == "b" and len(x["ap"]) > 1 and x["ap"][0] == op["k"] for x in items)
+                                      and any(x["k"] == "b" and x["ap"] == [op["k"]] for x in items)) else \
+                    "family" if any(x["k"] == "b" and len(x["ap"]) > 1 and x["ap"][0] == op["k"] for x in items) else \
                     "existing" if any(x["k"] == "b" and x["ap"] == [op["k"]] for x in items) else \
                     "inherited" if any(x["k"] == "i" and op["k"] in x["names"] for x in items) else "missing"
                 via = "-"
